@@ -415,6 +415,9 @@ pub struct Reference {
     pub key_text: BTreeMap<(String, Vec<u128>), String>,
     /// CLDR keys whose shape no table can hold
     pub unplaceable: Vec<String>,
+    /// (table, later CLDR key, earlier CLDR key) whose integer keys coincide: the tables cannot
+    /// hold "exactly one entry per CLDR key" and stay strictly increasing
+    pub colliding: Vec<(String, String, String)>,
     /// locale name -> (Lid, direction) from the layout files
     pub locales: BTreeMap<String, (Lid, String)>,
 }
@@ -423,6 +426,7 @@ pub fn reference(img: &FsImage) -> Result<Reference, String> {
     let mut items: BTreeMap<String, Val> = BTreeMap::new();
     let mut key_text = BTreeMap::new();
     let mut unplaceable = vec![];
+    let mut colliding = vec![];
 
     // ---- likely subtags
     let raw = img
@@ -472,10 +476,10 @@ pub fn reference(img: &FsImage) -> Result<Reference, String> {
             }
         };
         if tabs.get_mut(table).unwrap().insert(ints.clone(), v3).is_some() {
-            return Err(format!(
-                "two CLDR keys collapse onto the same {} key (second: {:?})",
-                table, k
-            ));
+            // two spellings of one key in the data (e.g. `und-KZ` and `und_KZ`): reported as a
+            // violation of the property by the static checks, not as a harness failure
+            let earlier = key_text.get(&(table.to_string(), ints.clone())).cloned().unwrap_or_default();
+            colliding.push((table.to_string(), k.clone(), earlier));
         }
         key_text.insert((table.to_string(), ints), k.clone());
     }
@@ -553,6 +557,7 @@ pub fn reference(img: &FsImage) -> Result<Reference, String> {
         items,
         key_text,
         unplaceable,
+        colliding,
         locales,
     })
 }
@@ -749,6 +754,18 @@ pub fn static_checks(comp: &BTreeMap<String, Val>, rf: &Reference) -> StaticRepo
             "unplaceable-key",
             k,
             format!("CLDR key {:?} has language, script and region: no table can hold it", k),
+        ));
+    }
+    for (table, later, earlier) in &rf.colliding {
+        out.push(viol(
+            "S1",
+            table,
+            "colliding-keys",
+            later,
+            format!(
+                "CLDR keys {:?} and {:?} have the same integer key in {}: the table cannot hold one entry per CLDR key and be strictly increasing",
+                earlier, later, table
+            ),
         ));
     }
     match (comp.get("CLDR_VERSION"), rf.items.get("CLDR_VERSION")) {
